@@ -21,14 +21,14 @@ mod verif_cursor {
     }
 
     // tokens: "a" | ws1+text1 | Eof("\n")
-    fn run(pos: TokPos, text1: &'static str, ws1: u32, tt1: TokenType) {
+    fn run(pos: TokPos, text1: &'static str, ws1: u32, tt1: TokenType, fixed_idx: Option<usize>, may_ignore: bool, cmax: (u16, u16, u16, u16)) {
         let crlf: bool = kani::any();
         let rs = ReconstructionSettings::new(if crlf { LineEnding::Crlf } else { LineEnding::Lf }, TabKind::Soft, 2, 3);
         let nl_len = if crlf { 2 } else { 1 };
         let recon = DelphiLogicalLinesReconstructor::new(rs);
         let c1: (u16, u16, u16, u16) = kani::any();
-        kani::assume(c1.0 <= 2 && c1.1 <= 1 && c1.2 <= 1 && c1.3 <= 2);
-        let ign1: bool = kani::any();
+        kani::assume(c1.0 <= cmax.0 && c1.1 <= cmax.1 && c1.2 <= cmax.2 && c1.3 <= cmax.3);
+        let ign1: bool = if may_ignore { kani::any() } else { false };
         let nl2: u16 = kani::any();
         kani::assume(nl2 <= 1);
         let mut toks = [
@@ -47,7 +47,7 @@ mod verif_cursor {
         let len1 = text1.len() - ws1 as usize;
         let st = St { start0: 0, start1: 1 + ws1_len, len1, total: 1 + ws1_len + len1 + nl2 as usize * nl_len };
 
-        let tok_idx: usize = kani::any();
+        let tok_idx: usize = match fixed_idx { Some(i) => i, None => kani::any() };
         kani::assume(tok_idx <= 4);
         let is_content = matches!(pos, TokPos::Content { .. });
         let content_off = if let TokPos::Content { offset } = pos { offset } else { 0 };
@@ -56,9 +56,8 @@ mod verif_cursor {
         tracker.relocate_cursors(&ft);
         drop(tracker);
         let c = cur.0 as usize;
-        kani::cover!(tok_idx == 1 && ign1, "cursor on an ignored token");
-        kani::cover!(tok_idx == 1 && !ign1 && c1.0 == 2, "cursor on a token after two line breaks");
-        kani::cover!(tok_idx >= 3, "token index past the end");
+        kani::cover!(tok_idx == 1 && c1.0 > 0, "cursor on a token that starts a line");
+        kani::cover!(c <= st.total, "a projected cursor");
         assert!(c <= st.total, "OB cursor/within_output: projected cursor lies within the emitted output");
         if tok_idx >= 3 {
             assert!(c == st.total, "OB cursor/past_end_maps_to_end: a token index past the end maps to the end of the output");
@@ -73,18 +72,20 @@ mod verif_cursor {
         }
     }
 
+    const MLC: TokenType = TokenType::Comment(CommentKind::MultilineBlock);
+
     #[kani::proof]
     #[kani::unwind(7)]
     fn cursor_content_single() {
         let offset: u32 = kani::any();
-        run(TokPos::Content { offset }, "  bc", 2, TokenType::Identifier);
+        run(TokPos::Content { offset }, "  bc", 2, TokenType::Identifier, None, true, (2, 1, 1, 2));
     }
 
     #[kani::proof]
     #[kani::unwind(8)]
     fn cursor_content_multiline_token() {
         let offset: u32 = kani::any();
-        run(TokPos::Content { offset }, " {\n}", 1, TokenType::Comment(CommentKind::MultilineBlock));
+        run(TokPos::Content { offset }, " {\n}", 1, MLC, None, true, (1, 1, 0, 1));
     }
 
     #[kani::proof]
@@ -92,7 +93,15 @@ mod verif_cursor {
     fn cursor_multiline_pos() {
         let reverse_col: u16 = kani::any();
         let newlines_after_cursor: u16 = kani::any();
-        run(TokPos::MultilineContent { reverse_col, newlines_after_cursor }, " {\n}", 1, TokenType::Comment(CommentKind::MultilineBlock));
+        run(TokPos::MultilineContent { reverse_col, newlines_after_cursor }, " {\n}", 1, MLC, Some(1), false, (1, 0, 0, 1));
+    }
+
+    #[kani::proof]
+    #[kani::unwind(8)]
+    fn cursor_multiline_pos_ignored() {
+        let reverse_col: u16 = kani::any();
+        let newlines_after_cursor: u16 = kani::any();
+        run(TokPos::MultilineContent { reverse_col, newlines_after_cursor }, " {\n}", 1, MLC, Some(1), true, (0, 0, 0, 0));
     }
 
     #[kani::proof]
@@ -100,7 +109,15 @@ mod verif_cursor {
     fn cursor_ws_single() {
         let col: u16 = kani::any();
         let newlines_after_cursor: u16 = kani::any();
-        run(TokPos::Whitespace { col, newlines_after_cursor }, "\n bc", 2, TokenType::Identifier);
+        run(TokPos::Whitespace { col, newlines_after_cursor }, "\n bc", 2, TokenType::Identifier, Some(1), false, (2, 1, 0, 1));
+    }
+
+    #[kani::proof]
+    #[kani::unwind(7)]
+    fn cursor_ws_single_ignored() {
+        let col: u16 = kani::any();
+        let newlines_after_cursor: u16 = kani::any();
+        run(TokPos::Whitespace { col, newlines_after_cursor }, "\n bc", 2, TokenType::Identifier, Some(1), true, (1, 0, 0, 0));
     }
 
     #[kani::proof]
@@ -108,6 +125,15 @@ mod verif_cursor {
     fn cursor_ws_multiline_token() {
         let col: u16 = kani::any();
         let newlines_after_cursor: u16 = kani::any();
-        run(TokPos::Whitespace { col, newlines_after_cursor }, "  {\n}", 2, TokenType::Comment(CommentKind::MultilineBlock));
+        run(TokPos::Whitespace { col, newlines_after_cursor }, "  {\n}", 2, MLC, Some(1), false, (1, 1, 0, 1));
+    }
+
+    #[kani::proof]
+    #[kani::unwind(8)]
+    fn cursor_ws_eof_token() {
+        // cursor in the blanks before the end-of-file token
+        let col: u16 = kani::any();
+        let newlines_after_cursor: u16 = kani::any();
+        run(TokPos::Whitespace { col, newlines_after_cursor }, " b", 1, TokenType::Identifier, Some(2), false, (0, 0, 0, 1));
     }
 }
